@@ -5,11 +5,15 @@
 import Fca.Drv.Util
 import Fca.Drv.C01
 import Fca.Drv.C20
+import Fca.Drv.C06
+import Fca.Drv.C16
 open Lean Fca.Drv
 
 def allHandlers : List (String × Handler) :=
   Fca.Drv.C01.handlers ++
-  Fca.Drv.C20.handlers
+  Fca.Drv.C20.handlers ++
+  Fca.Drv.C06.handlers ++
+  Fca.Drv.C16.handlers
 
 def dispatch (line : String) : String :=
   match Json.parse line with
